@@ -10,6 +10,7 @@ pub mod uf;
 
 pub mod c06;
 pub mod c07;
+pub mod c08;
 pub mod c09;
 
 #[rustfmt::skip]
